@@ -165,12 +165,13 @@ def check_prims(ctx, rep):
 
             class Scheduled(_io2.RawIOBase):     # the k-th read() returns at most caps[k] bytes; full reads once the schedule is used up
                 def __init__(self, data, pos, caps):
-                    self.d, self.p, self.caps, self.calls, self.maxreq = data, pos, list(caps), 0, 0
+                    self.d, self.p, self.caps, self.calls, self.maxreq, self.reqs = data, pos, list(caps), 0, 0, []
 
                 def read(self, n=-1):
                     self.calls += 1
                     k = len(self.d) if n < 0 else n
                     self.maxreq = max(self.maxreq, 1 << 62 if n < 0 else n)
+                    self.reqs.append(n)
                     if self.caps:
                         k = min(k, self.caps.pop(0))
                     out = self.d[self.p:self.p + k]
@@ -186,12 +187,13 @@ def check_prims(ctx, rep):
                 caps = [rng.choice((0, 1, 2) if zero else (1, 1, 2, 3, 5, 50)) for _ in range(rng.randrange(0, 12))]
                 f = Scheduled(data, pos, caps)
                 got = _py(lambda: [list(_rf(f, size, bs)), f.p])
+                got = got + [list(f.reqs)] if isinstance(got, list) else got      # + the size every read() asked for (ReadFully.rf_requests)
                 cmp("read_fully over a scheduled file = ReadFully.read_fully", (ln, pos, size, bs, caps),
                     model.call("read_fully_model", [list(data), pos, size, bs, caps]), got)
                 if not zero:                          # the theorem's statement, on the implementation
                     cmp("read_fully = next size bytes, position just behind them; at most size+1 reads, none asking for more than a block "
                         "(the model asks for min(remaining, blocksize))", (ln, pos, size, bs, caps),
-                        [got, f.calls <= size + 1, f.maxreq <= min(size, bs)], [[list(data[pos:pos + size]), pos + len(data[pos:pos + size])], True, True])
+                        [got[:2], f.calls <= size + 1, f.maxreq <= min(size, bs)], [[list(data[pos:pos + size]), pos + len(data[pos:pos + size])], True, True])
         from py7zr.helpers import ArchiveTimestamp
         for v in (0, 1, 5, 1 << 63, (1 << 64) - 1, -3):
             cmp("ArchiveTimestamp(v) is the int v", v, [int(ArchiveTimestamp(v)), ArchiveTimestamp(v) == v, isinstance(ArchiveTimestamp(v), int),
